@@ -38,6 +38,34 @@ def run(ctx: core.Ctx) -> int:
     scenarios.transfer(it, ctx, rules={"LAY-CALL", "LAY-FLAT", "LAY-ZIP", "LAY-SLOT"},
                        funcs=["ExtendedKalmanFilter.sensor_jacobian", "SensorModel.model"])
     R = Layout((("SORT", ("READ", "k"), "natural"),))
+    # the Jacobian block behind H: rows = the sensor's sorted readings, columns = state + calibration (shared with C03)
+    ctx.rule("LAY-JACPY", "H's block is Matrix([sensor[r] for r in sorted readings]).jacobian(state + calibration)")
+    sj = sc.ekf.attrs.get("_impl_sensor_jacobians")
+    blk = sj.attrs.get("__fam__") if isinstance(sj, ObjV) else None
+    S_, K_ = Layout((("SORT", "STATE", "name"),)), Layout((("SORT", "CALIB", "name"),))
+    if isinstance(blk, BlockV) and isinstance(blk.outputs, FlatV):
+        okb = blk.outputs.rows == R and blk.outputs.cols == S_ + K_ and blk.formals == S_ + K_
+        ctx.oblige("LAY-JACPY", f"{file}:ExtendedKalmanFilter._construct_sensors", f"sensor Jacobian block Flat({blk.outputs.rows} x {blk.outputs.cols}) over {blk.formals}",
+                   okb, file=file, func="ExtendedKalmanFilter._construct_sensors", construct="_impl_sensor_jacobians",
+                   msg=f"the rows of H follow {blk.outputs.rows} (columns {blk.outputs.cols}); z, h(x) and Q are laid out as {R}: H is row-permuted "
+                       f"relative to the innovation unless the user happened to declare the readings in sorted order")
+    else:
+        ctx.error(f"_impl_sensor_jacobians[k] is not a block over a flattened Jacobian ({blk!r})")
+    # the update keeps no state besides the two records
+    from .. import effects
+    ctx.rule("PURE", "sensor_model / sensor_jacobian / SensorModel.model write only self.innovations[key] and self.sensor_prediction_uncertainty[key]")
+    pmod = it.p.modules["python"]
+    for cname, mname in (("ExtendedKalmanFilter", "sensor_model"), ("ExtendedKalmanFilter", "sensor_jacobian"), ("SensorModel", "model")):
+        c = core.find_class(pmod, cname)
+        fnn = core.find_func(c, mname) if c else None
+        if fnn is None:
+            ctx.error(f"anchor missing: python.{cname}.{mname}")
+            continue
+        ws = [w for w in effects.writes(fnn) if not (w.kind == "item" and w.target in ("self.innovations", "self.sensor_prediction_uncertainty"))]
+        ctx.oblige("PURE", f"{file}:{cname}.{mname}", f"{len(ws)} write effect(s) besides the two records", not ws, file=file, func=f"{cname}.{mname}",
+                   construct="writes:" + ";".join(sorted(w.kind + " " + w.target for w in ws)),
+                   msg="the update changes filter state it must only read (e.g. the stored noise Q or the inputs, through an alias): "
+                       + "; ".join(f"{w.kind} {w.target} (line {w.line}: {w.text[:60]})" for w in ws), line=ws[0].line if ws else None)
     q = sc.Qcls
     okq = isinstance(q, NCls) and q.kind == "cov" and q.layout == R
     ctx.oblige("Q-KIND", f"{file}:ExtendedKalmanFilter._construct_sensors", f"sensor_noises[k] : {q!r}", okq, file=file,
@@ -85,4 +113,10 @@ def run(ctx: core.Ctx) -> int:
     ctx.floor("UPD-FORM", n + 2 * upd, 4, "S, y, posterior state, posterior covariance")
     ctx.floor("ARR-MM", scenarios.count(it, "ARR-MM", "sensor_model"), 4, "matrix products in sensor_model")
     ctx.floor("ARR-EW", scenarios.count(it, "ARR-EW", "sensor_model"), 2, "sums/differences in sensor_model")
+    # the values of the compiled blocks go through python.BasicBlock: its temporaries protocol and trusted sympy signatures (shared with C01/C08)
+    from .. import tmprules as _tmp
+    for _rid, _t in (("TMP-1", "python prefix/body lambdify protocol"), ("TMP-2", "python execute protocol"), ("TMP-4", "CSE flag gates only cse()/simplify()"),
+                     ("TRUST-SIG", "trusted sympy call signatures")):
+        ctx.rule(_rid, _t)
+    _tmp.check_python_block(ctx, it.p.modules["python"])
     return core.finish(ctx, explanation="E2 axis typing + E3 normal forms of sensor_model's records and results", **META)
